@@ -14,6 +14,7 @@ import NeumannModel.RelTx.Model
     tx_update <tx> <t> <cond> <c=v,c=v>         ok <n> | err <class>
     tx_delete <tx> <t> <cond>                   ok <n> | err <class>
     insert <t> <v,v> | update <t> <cond> <upd> | delete <t> <cond>
+    batch_insert <t> <v,v;v,v|->                ok <n> <first rowid> | err <class>
     create_index|create_btree|drop_index|drop_btree <t> <c>
     tick <ms> | cleanup_locks | cleanup_txs
     select <t> <cond>                           rows <id:v.v;...> | err table_not_found
@@ -123,6 +124,14 @@ def relStep (s : State) (line : String) : State × String :=
     | some tx, some t, some c => fin 0 (step s (.txDelete tx t c)) | _, _, _ => bad
   | ["insert", t, vs] => match t.toNat?, parseVals vs with
     | some t, some vs => fin 1 (step s (.insert t vs)) | _, _ => bad
+  | ["batch_insert", t, rs] => match t.toNat?, (if rs = "-" then some [] else (rs.splitOn ";").mapM parseVals) with
+    | some t, some rows =>
+      -- answer: number of rows and the engine id of the first one (0 for an empty batch)
+      let first := match s.tables t with | some T => T.rows.length + 1 | none => 0
+      (match batchInsert s t rows with
+        | (s', .okN n) => (s', s!"ok {n} {if n = 0 then 0 else first}")
+        | (s', r) => (s', showRes 0 r))
+    | _, _ => bad
   | ["update", t, c, u] => match t.toNat?, parseCond c, parseUpd u with
     | some t, some c, some u => fin 0 (step s (.update t c u)) | _, _, _ => bad
   | ["delete", t, c] => match t.toNat?, parseCond c with
